@@ -107,9 +107,9 @@ Section StepPrioLm.
     assert (M1 : qmin (c_chp c) (c_u c - 0) = qmin (c_u c) (c_chp c)) by qlra. rewrite M1.
     assert (Z0 : 0 / c_chp c = 0) by (unfold Qcdiv; ring). rewrite Z0.
     destruct Z as [K|G].
-    - rewrite K. destruct (qltb_spec (qfrac 1 1000) 0) as [P|P]; [exfalso; qlra|].
+    - rewrite K. destruct (qltb_spec 0 0) as [P|P]; [exfalso; qlra|].
       assert (M : qmin (c_u c) 0 = 0) by qlra. rewrite M. repeat split; ring.
-    - destruct (qltb_spec (qfrac 1 1000) (c_chp c)) as [P|P]; [|exfalso; qlra].
+    - destruct (qltb_spec 0 (c_chp c)) as [P|P]; [|exfalso; qlra].
       rewrite (div_self (c_chp c)) by (intro K; rewrite K in G; qlra). repeat split; ring.
   Qed.
 End StepPrioLm.
@@ -239,7 +239,7 @@ Section AnnualLmAll.
     intros Hj. unfold a_used_src, ann, vec. apply qsum_map_zero. intros s Hs. destruct (Hy s Hs) as (pr & c & -> & [T E]).
     unfold s_used_src, srg.
     destruct Hj as [->| ->]; destruct pr; cbn [snd step_out so_src so_uts so_uea used_src_f c_src]; try reflexivity; rewrite ?T, ?E;
-      destruct (qltb (qfrac 1 1000) (c_p c)); unfold Qcdiv; ring.
+      destruct (qltb 0 (c_p c)); unfold Qcdiv; ring.
   Qed.
 
   Lemma g_used_on : used_on ELECTRICIDAD true data = a_used_src x EL_INSITU /\ used_on ELECTRICIDAD true data' = a_used_src x' EL_INSITU.
